@@ -550,7 +550,7 @@ void h_sizes(void) {
   ldb_t *db = mk_db(); ldb_range_t *ranges; uint64_t *sizes;
   IN_SIZE(in_n); IN_SIZE(in_j);
   g_mode = M_SIZES;
-  ASSUME(in_n < ((size_t)1 << 20));
+  ASSUME(in_n < ((size_t)1 << 32));
   ranges = malloc((in_n + 1) * sizeof(ldb_range_t)); sizes = malloc((in_n + 1) * sizeof(uint64_t)); ASSUME(ranges != NULL && sizes != NULL);
   g_ranges = ranges; g_sizes = sizes; g_nranges = in_n; g_j = in_j;
   g_ik_n = g_ik_clears = g_ik_bad = 0; g_off_bad = 0; g_off_calls_j = 0; g_off_start = g_off_limit = 0;
